@@ -40,7 +40,10 @@ CONSTANTS
   MaxCrashes,   \* how many processes may die
   TrackHist,    \* BOOLEAN: model the history log (C10)
   IndexBeforeRoute,         \* FALSE = behaviour of the pinned commit (index after route, never on the batch path)
-  RecoveryAbortsOnLostRace  \* TRUE = behaviour of the pinned commit (defect fixed in /repo, see known_findings.json)
+  RecoveryAbortsOnLostRace, \* TRUE = behaviour of the pinned commit (defect fixed in /repo, see known_findings.json)
+  IncBeforeRetry,           \* FALSE = behaviour of the pinned commit: RETRY written, then the retry counted (C19 fix)
+  WaitedOn                  \* SUBSET Inv: invocations somebody waits for: a poll may claim them through the
+                            \* blocking scan as soon as their status is available, without a queue message
 
 VARIABLES
   queue,      \* Seq(Inv): the broker
@@ -236,6 +239,17 @@ P_Pop(a) ==
   /\ UNCHANGED <<rec, indexed, retries, result, exc, hist, histq, alive, aged, expired, stopping, clock,
                  accepted, execs, done, inBody, epoch, changes, crashes>>
 
+\* get_blocking_invocations_to_run: a waited-for invocation whose status is available is taken up by the poll
+\* without any queue message (then candidate check and claim as for a popped one)
+P_Blocking(a) ==
+  /\ Live(a)
+  /\ pc[a] = "p_pop" /\ loc[a].missing > 0
+  /\ \E i \in WaitedOn :
+       /\ St(i) \in Available
+       /\ GotoL(a, "p_cand", [loc[a] EXCEPT !.cur = i])
+  /\ UNCHANGED <<queue, rec, indexed, retries, result, exc, hist, histq, alive, aged, expired, stopping, clock,
+                 accepted, execs, done, inBody, epoch, changes, crashes>>
+
 \* get_invocation_status(): not available for run -> the message is dropped
 P_Read(a) ==
   /\ Live(a)
@@ -306,7 +320,7 @@ P_RrRoute(a) ==
   /\ UNCHANGED <<rec, indexed, retries, result, exc, hist, histq, alive, aged, expired, stopping, clock,
                  accepted, execs, done, inBody, epoch, changes, crashes>>
 
-PollerStep(a) == P_Start(a) \/ P_Pop(a) \/ P_Read(a) \/ P_Cand(a) \/ P_SetCC(a) \/ P_Claim(a)
+PollerStep(a) == P_Start(a) \/ P_Pop(a) \/ P_Blocking(a) \/ P_Read(a) \/ P_Cand(a) \/ P_SetCC(a) \/ P_Claim(a)
                  \/ P_RrStatus(a) \/ P_RrRoute(a)
 
 ----------------------------------------------------------------------------
@@ -403,20 +417,21 @@ W_SetFailed(a) ==
   /\ UNCHANGED <<queue, indexed, retries, result, exc, hist, loc, alive, expired, stopping,
                  accepted, execs, done, inBody, crashes>>
 
-\* set_invocation_retry: RETRY, counter, queue push (three separate effects)
+\* set_invocation_retry: three separate effects.  Pinned commit: RETRY, counter, queue push.  Since the C19 fix
+\* (IncBeforeRetry): counter, RETRY, queue push - the retry is counted before the invocation is available again.
 W_SetRetry(a) ==
   /\ Live(a)
-  /\ pc[a] = "w_retry"
+  /\ pc[a] = (IF IncBeforeRetry THEN "w_retry2" ELSE "w_retry")
   /\ Change(a[3], "retry", a[2])
-  /\ IF Ok(a[3], "retry", a[2]) THEN Goto(a, "w_inc") ELSE WEnd(a)
+  /\ IF Ok(a[3], "retry", a[2]) THEN Goto(a, IF IncBeforeRetry THEN "w_retry_route" ELSE "w_inc") ELSE WEnd(a)
   /\ UNCHANGED <<queue, indexed, retries, result, exc, hist, loc, alive, expired, stopping,
                  accepted, execs, done, inBody, crashes>>
 
 W_Inc(a) ==
   /\ Live(a)
-  /\ pc[a] = "w_inc"
+  /\ pc[a] = (IF IncBeforeRetry THEN "w_retry" ELSE "w_inc")
   /\ retries' = [retries EXCEPT ![a[3]] = @ + 1]
-  /\ Goto(a, "w_retry_route")
+  /\ Goto(a, IF IncBeforeRetry THEN "w_retry2" ELSE "w_retry_route")
   /\ UNCHANGED <<queue, rec, indexed, result, exc, hist, histq, loc, alive, aged, expired, stopping, clock,
                  accepted, execs, done, inBody, epoch, changes, crashes>>
 
@@ -604,6 +619,7 @@ Next ==
   \/ \E a \in ClientActors : C_Return(a)
   \/ \E a \in PollerActors : P_Start(a)
   \/ \E a \in PollerActors : P_Pop(a)
+  \/ \E a \in PollerActors : P_Blocking(a)
   \/ \E a \in PollerActors : P_Read(a)
   \/ \E a \in PollerActors : P_Cand(a)
   \/ \E a \in PollerActors : P_SetCC(a)
@@ -714,6 +730,8 @@ StoppedLeavesNothing ==
       /\ ~(St(i) \in Owned /\ rec[i].owner = a[2])
       /\ Safe(i)
       /\ St(i) = "killed" => \E b \in Actor : b # a /\ Live(b) /\ i \in InHand(b)
+\* C19 (execution count): without crash, stop or recovery an invocation is executed at most max_retries + 1 times
+AtMostMaxPlusOne == \A i \in Inv : execs[i] <= MaxRetries + 1
 StopCompletes == \A a \in StopActors : (pc[a] = "s_wait_loop") ~> (pc[a] = "s_done")
 
 ============================================================================
